@@ -93,8 +93,7 @@ func freshRoundCalls(n int64, k, wide int) []*Call {
 
 // runC11Fresh: see C11Case.Fresh.
 func runC11Fresh(c *C11Case) (string, int) {
-	old := runtime.GOMAXPROCS(c.Procs)
-	defer runtime.GOMAXPROCS(old)
+	setProcs(c.Procs)
 	for r := 0; r < c.Fresh; r++ {
 		n := atomic.AddInt64(&freshCounter, 1)
 		k := 2 + (c.Salt+r)%2
@@ -244,8 +243,7 @@ func runC11(c *C11Case) (string, c11Facts) {
 	if proxyInstalled {
 		proxy.set(backendFor(c.Cache, &evictions))
 	}
-	old := runtime.GOMAXPROCS(c.Procs)
-	defer runtime.GOMAXPROCS(old)
+	setProcs(c.Procs)
 	type worker struct {
 		idx   []int
 		prep  []*prepared // one privately built input per pool entry
